@@ -61,6 +61,27 @@ def run(res):
         tcases.append(sessioncheck.case_from_items(rnd, d, items + extra_items))
     sessioncheck.run_cases(res, tcases, owns, 'attribution (old and new holder of an id in one message)', theorem='C02_latest_incarnation / C02_creation_exact',
                            nontrivial=lambda c, m: True, kernel_sample=3)
+    # one id used again and again (eighth seeding round: a fast path for "single-letter generations" that was off by one showed
+    # only from the 27th object of an id on): the labels have to run a..z, aa, ab, ... through the letter boundaries
+    lcases = []
+    for cycles in ([27, 30, 55] if res.tier == 'quick' else [27, 28, 53, 80, 703, 710]):
+        d, items = world.gen_history(rnd, n_conns=1, n_events=rnd.choice([2, 6]), chatter=0.0, tags=[None])
+        msgs = [it for it in items if it[0] == 'msg']
+        if not msgs:
+            continue
+        base = msgs[-1][2]
+        t = [base['time_us']]
+        x = rnd.choice([3100, 3101])
+        extra_items = []
+        for k in range(cycles):
+            for iface, oid, name, args, sent in (('my_widget', 2900, 'poke', [('new', x, 'test_iface')], True),
+                                                 ('test_iface', x, 'frob', [('int', k), ('obj', x, 'test_iface')], True),
+                                                 ('wl_display', 1, 'delete_id', [('int', x)], False)):
+                t[0] += rnd.choice([100, 1000, 40000])
+                extra_items.append(('msg', None, dict(base, time_us=t[0], sent=sent, iface=iface, id=oid, name=name, args=args)))
+        lcases.append(sessioncheck.case_from_items(rnd, d, items + extra_items))
+    sessioncheck.run_cases(res, lcases, owns, 'attribution (one id used again 27 to 710 times)', theorem='C02_latest_incarnation / C02_creation_exact',
+                           nontrivial=lambda c, m: True, kernel_sample=0)
     # the same attribution in GDB mode, where an address is closed and used again by a NEW connection (often with no other
     # connection's message in between): every mention after the re-open belongs to the new connection's fresh table
     import gdbcheck
